@@ -137,7 +137,7 @@ theorem optionalCoords_insert (pre post : Views) (v : VarView) (mesh : VarView) 
       congr 1
       apply List.filter_congr
       intro n hmem
-      rw [dataVar?_insert]
+      rw [var?_insert]
       apply hn
       simp [coordNames, hs, hxy]
       simpa using hmem
@@ -192,7 +192,7 @@ theorem ugridNames_insert (pre post : Views) (v : VarView) (valid : List String)
       have hcn := mem_coordNames_of hn
       have h2 := hcoord "node_coordinates" (by simp) nx (by simp [hcn])
       have h3 := hcoord "node_coordinates" (by simp) ny (by simp [hcn])
-      rw [dataVar?_insert _ _ _ _ h1, dataVar?_insert _ _ _ _ h2, dataVar?_insert _ _ _ _ h3]
+      rw [dataVar?_insert _ _ _ _ h1, var?_insert _ _ _ _ h2, var?_insert _ _ _ _ h3]
     · rfl
 
 /-- Inserting a variable the inventory neither finds by its attributes nor looks up by its
